@@ -382,6 +382,7 @@ class DequeList(list):
 
 
 PURE_EXTERNALS['collections.deque'] = DequeList
+PURE_EXTERNALS['builtins.slice'] = slice
 # every constant of the string module, every flag of re (long and short names)
 for _n in ('ascii_letters', 'ascii_lowercase', 'ascii_uppercase', 'hexdigits', 'octdigits', 'printable', 'whitespace'):
     PURE_EXTERNALS['string.' + _n] = getattr(_string_mod, _n)
